@@ -24,6 +24,10 @@ def constructed_lines(rng, impl, tier):
     V = gen_tables.enum_vectors()
     O = gen_tables.opaque_enum_factories()
     pairs = []   # (compose command, parse command prefix)
+    for k in range(1, 10):      # SSH mpints at the byte boundaries of either sign
+        for z in (256 ** k - 1, 256 ** k, 256 ** k // 2, 256 ** k // 2 - 1, 256 ** k // 2 + 1, 256 ** k - 256 ** (k - 1) + 1, 256 ** k - 255):
+            for sgn in (1, -1):
+                pairs.append(('csshmpint %d' % (sgn * z), 'psshmpint'))
     for _ in range(n):
         z = rng.getrandbits(rng.choice([1, 7, 8, 9, 16, 24, 31, 32, 33, 63, 64, 100, 521, 1024]))
         w = rng.choice([1, 2, 3, 4, 8])
